@@ -4,11 +4,11 @@ from harness.common.rng import Rng
 from harness.common import sim
 
 PROP = "C52"
-LEAN_MODULES = ["LunaVerif.Props.C52", "LunaVerif.Lemmas.I2cWrite"]
+LEAN_MODULES = ["LunaVerif.Props.C52", "LunaVerif.Lemmas.I2cWrite", "LunaVerif.Lemmas.I2cRead"]
 DRIVER = "Driver/C52.lean"
 REQUIRED_THEOREMS = ["sda_changes_under_scl_high_only_for_start_stop", "busy_low_iff_accepting",
-                     "stretch_holds_timer", "read_samples_when_scl_high", "write_msb_first_and_ack_partial",
-                     "sda_released_for_target_bits", "write_msb_first_and_ack"]
+                     "stretch_holds_timer", "read_samples_when_scl_high", "write_and_ack_step_facts",
+                     "sda_released_for_target_bits", "write_msb_first_and_ack", "read_returns_sampled_octet"]
 RULE = ("cases = (period_cyc, clk_stretch) x behaviour; cooperative: random operation sequences (start, repeated "
         "start, write, read, stop) issued when busy is low, behavioural target on open-drain wired-AND lines (ACK/NAK, "
         "read data MSB first set up at a random point of the low phase, random clock stretching after falling edges "
@@ -21,9 +21,7 @@ ASSUMPTIONS = [
     "cooperative-target monitors: the target changes SDA only while the SCL line is low and stretches only directly "
     "after a falling edge; period_cyc >= 8",
 ]
-PARTIAL = ("byte-level READ statement (data_o = the eight bits sampled, MSB first) is proved only as one-step facts "
-           "about r_shreg (read_samples_when_scl_high); as a whole-operation statement it is covered by the "
-           "co-simulation and the monitor (read-data) only.  The write side is full (write_msb_first_and_ack).")
+PARTIAL = ""
 
 NAMES_IN = ["scl_pad_i", "sda_pad_i", "start", "stop", "write", "read", "data_i", "ack_i"]
 NAMES_OUT = ["scl_oe", "sda_oe", "busy", "ack_o", "data_o", "bus_sample", "bus_setup", "bus_start", "bus_stop"]
